@@ -392,7 +392,7 @@ m('skiplist-getvalue-keeps-pin', ['C17', 'C14'], SL, """	sl.bpm.UnpinPage(node.G
 	node.RUnlatch()
 """, """	node.RemoveRLatchRecord(key.ToInteger())
 	node.RUnlatch()
-""", ['C17-R4 [(*container/skip_list.SkipList).GetValue:hand-over-latches]'])
+""", ['C17-R4/pins [(*container/skip_list.SkipList).GetValue:hand-over-pins]'])
 m('skiplist-insert-nosplit-keeps-wlatch', ['C17'], SLB, """			bpm.UnpinPage(node.GetPageID(), true)
 			node.WUnlatch()
 			if common.EnableDebug {
